@@ -66,6 +66,7 @@ package lib
 //@   ensures @C19: result == nil ==> forall i int :: 0 <= i && i < len(c.CovertAllowlistSubnets) ==> validCIDR(c.CovertAllowlistSubnets[i])
 //@   ensures @C19: result == nil ==> forall i int :: 0 <= i && i < len(c.PhantomBlocklist) ==> validCIDR(c.PhantomBlocklist[i])
 //@   ensures @C19: result == nil ==> forall i int :: 0 <= i && i < len(c.CovertBlocklistDomains) ==> validRegexp(c.CovertBlocklistDomains[i])
+//@   assigns c.covertBlocklistSubnets, c.covertBlocklistDomains, c.phantomBlocklist, c.covertAllowlistSubnets, c.enableCovertAllowlist
 //@ loop 1:
 //@   invariant 0 <= iter && iter <= len(c.CovertBlocklistSubnets)
 //@   invariant forall i int :: 0 <= i && i < iter ==> validCIDR(c.CovertBlocklistSubnets[i])
